@@ -123,6 +123,14 @@ CASES = [
     ("norm nuc", "lambda anp, x: anp.linalg.norm(x, 'nuc')", [((3, 2), "R")], (0,)),
     ("norm ord=2 axis=0", "lambda anp, x: anp.linalg.norm(x, 2, axis=0)", [((3, 2), "R")], (0,)),
     ("norm complex vec", "lambda anp, x: anp.linalg.norm(x)", [((3,), "C")], (0,)),
+    ("norm complex vec ord=3", "lambda anp, x: anp.linalg.norm(x, 3)", [((3,), "C")], (0,)),
+    ("norm complex fro", "lambda anp, x: anp.linalg.norm(x, 'fro')", [((2, 3), "C")], (0,)),
+    ("norm complex matrix default", "lambda anp, x: anp.linalg.norm(x)", [((2, 2), "C")], (0,)),
+    ("norm complex axis=0", "lambda anp, x: anp.linalg.norm(x, axis=0)", [((3, 2), "C")], (0,)),
+    ("norm complex ord=2.5 axis=1", "lambda anp, x: anp.linalg.norm(x, 2.5, axis=1)", [((2, 3), "C")], (0,)),
+    ("norm complex nuc", "lambda anp, x: anp.linalg.norm(x, 'nuc')", [((3, 2), "C")], (0,)),
+    ("norm complex nuc axis", "lambda anp, x: anp.linalg.norm(x, 'nuc', axis=(0, 2))", [((2, 2, 3), "C")], (0,)),
+    ("norm complex fro tuple axis", "lambda anp, x: anp.linalg.norm(x, 'fro', axis=(1, 2))", [((2, 2, 3), "C")], (0,)),
     ("eigh vals", "lambda anp, x: anp.linalg.eigh(x + x.T)[0]", [((3, 3), "R")], (0,)),
     ("eigh vecs", "lambda anp, x: anp.abs(anp.linalg.eigh(x + x.T)[1])", [((2, 2), "R")], (0,)),
     ("cholesky", "lambda anp, x: anp.linalg.cholesky(anp.dot(x, x.T) + 2 * anp.eye(3))", [((3, 3), "R")], (0,)),
